@@ -702,6 +702,12 @@ def check_ambient(inp):
     d = ambient_diff(r)
     if d:
         fails.append(failure("process-global state as before the import", d, note="after importing cvss and evaluating %d item(s) in a fresh process" % len(inp["items"])))
+    tb, ta = r.get("tables_before") or {}, r.get("tables_after") or {}
+    changed = sorted(k for k in set(tb) | set(ta) if tb.get(k) != ta.get(k))
+    if changed:
+        k = changed[0]
+        fails.append(failure("the package's module-level tables as they were right after the import", changed[:6],
+                             note="%s: %s -> %s" % (k, json.dumps(tb.get(k), default=repr)[:150], json.dumps(ta.get(k), default=repr)[:150])))
     if all(it[0] in ("ctor", "rh", "text") for it in inp["items"]) and (r.get("stderr") or "").strip():
         # importing the package (no cached bytecode) and calling the API wrote to the real stderr of a fresh process
         fails.append(failure("nothing written to stderr outside the CLI and interactive entry points", r["stderr"][-300:],
